@@ -225,12 +225,17 @@ struct IoOps {
         if constexpr (kind == SIMPLE || kind == LABELED) {
             const bool binary = modn(op.x, 2) == 1;
             const bool can = binary ? Codec<L>::bin : Codec<L>::text;
-            if (!can || r.m.hasDuplicates() || !r.m.allKnown()) { r.res.probes.inc("cutall_skipped"); return; }
+            if (!can || ((r.m.hasDuplicates() || !r.m.allKnown()) && op.s.empty())) { r.res.probes.inc("cutall_skipped"); return; }
             r.env.dirty = true;
             const std::string p = r.env.dir + (binary ? "/c.bin" : "/c.txt"), p2 = r.env.dir + (binary ? "/k.bin" : "/k.txt");
-            libWrite(*r.g, p, binary);
             std::string bytes;
-            readFileBytes(p, bytes);
+            if (binary && !op.s.empty()) {
+                bytes = op.s; // a hand-made valid file (records in any order, special index bytes) instead of the current graph
+                r.res.probes.inc("cutall_handmade_file");
+            } else {
+                libWrite(*r.g, p, binary);
+                readFileBytes(p, bytes);
+            }
             r.dg.u64(bytesDigest(bytes));
             // every cut offset of the file; only for files of several KiB (graphs of the rare large runs) the middle is sampled
             std::vector<size_t> cuts;
@@ -411,11 +416,46 @@ struct IoOps {
 template <class A>
 void Runner<A>::doPersist(const sim::Op &op) { IoOps<A>::persist(*this, op); }
 
+// A graph large enough for its file to exceed every stream / block buffer (tens of KiB), written, parsed by the reference
+// codec, reloaded and compared (sparse sweep). The run's own graph is untouched.
+template <class A>
+void bigIo(Runner<A> &r, const sim::Op &op) {
+    typedef typename A::G G;
+    if constexpr (A::kind == SIMPLE || A::kind == LABELED) {
+        const bool binary = modn(op.x, 2) == 1;
+        if (binary ? !Codec<typename A::Lab>::bin : !Codec<typename A::Lab>::text) { r.res.probes.inc("bigio_skipped"); return; }
+        const unsigned n = 90 + modn(op.a, 70);
+        const unsigned dens = 300 + modn(op.b, 600);
+        std::unique_ptr<G> keepG = std::move(r.g);
+        Model keepM = r.m;
+        r.g.reset(new G(n));
+        r.m = Model();
+        r.m.directed = A::directed;
+        r.m.n = n;
+        uint64_t h = (uint64_t)op.y * 0x9e3779b97f4a7c15ULL + 1;
+        for (unsigned i = 0; i < n; ++i)
+            for (unsigned j = A::directed ? 0 : i; j < n; ++j) {
+                h ^= h << 13; h ^= h >> 7; h ^= h << 17;
+                if (h % 1000 >= dens) continue;
+                const double val = A::kind == LABELED ? (double)((h >> 20) % ALPHA_N) : 0;
+                if constexpr (A::kind == LABELED) r.g->addEdge(i, j, Runner<A>::labelOf(val)); else r.g->addEdge(i, j);
+                r.m.add(i, j, val);
+            }
+        r.res.probes.inc("bigio_graphs");
+        sim::Op p2;
+        p2.k = "persist"; p2.x = binary ? 1 : 0;
+        try { IoOps<A>::persist(r, p2); } catch (...) { r.g = std::move(keepG); r.m = keepM; throw; }
+        r.g = std::move(keepG);
+        r.m = keepM;
+    } else r.res.probes.inc("bigio_skipped");
+}
+
 template <class A>
 void Runner<A>::doIo(const sim::Op &op) {
     if (op.k == "cutall") IoOps<A>::cutAll(*this, op);
     else if (op.k == "loadraw") IoOps<A>::loadRaw(*this, op);
     else if (op.k == "openfail") IoOps<A>::openFail(*this, op);
+    else if (op.k == "bigio") bigIo(*this, op);
 }
 
 } // namespace gs
